@@ -22,7 +22,7 @@ U32 = numpy.uint32
 
 META = {
     "level": "fault_enumeration",
-    "rule": ("files from C10's generator capped at ~4 KB (quick: 480 files, thorough: 15400); for each file EVERY cut "
+    "rule": ("files from C10's generator capped at ~4 KB (quick: 1120 files, thorough: 15400); for each file EVERY cut "
              "point k in [0, len) is loaded through the real IndxIO.load on a real (truncated) file; evaluations = "
              "(file, cut point) pairs. Non-trivial: cut inside the payload (k >= 16); distinct by (file hash, k). "
              "Plus: strace write-trace check (all writes append) and SIGKILL experiment (thorough: 100 kills)."),
@@ -39,7 +39,7 @@ META = {
 
 def shards(tier):
     if tier == "quick":
-        return [{"label": "cuts%d" % i, "kind": "cuts", "n": 40} for i in range(12)] + \
+        return [{"label": "cuts%d" % i, "kind": "cuts", "n": 80} for i in range(14)] + \
                [{"label": "trace", "kind": "trace", "n": 3}]
     return [{"label": "cuts%d" % i, "kind": "cuts", "n": 1100} for i in range(14)] + \
            [{"label": "trace", "kind": "trace", "n": 25}, {"label": "kill", "kind": "kill", "n": 100, "timeout_s": 3000}]
